@@ -5,6 +5,7 @@ import (
 	"fmt"
 	z "github.com/Oudwins/zog"
 	"github.com/Oudwins/zog/conf"
+	"github.com/Oudwins/zog/i18n"
 	"github.com/Oudwins/zog/zconst"
 	"sort"
 	"strings"
@@ -184,8 +185,71 @@ func c09PlaceholderText(c *core.Ctx) bool {
 	return true
 }
 
+// c09Wide: (a) an execution that names a language the application did not configure, next to configured languages whose names are
+// prefixes of one another (zh, zh-Hant): the message is the same on every run; (b) a record with two long lists of invalid items
+// (well over a thousand issues in one execution): the keys of the issue map are the same on every run.
+func c09Wide(c *core.Ctx) bool {
+	saved := conf.IssueFormatter
+	defer func() { conf.IssueFormatter = saved }()
+	mkLang := func(tag string) zconst.LangMap {
+		return zconst.LangMap{zconst.TypeString: {zconst.IssueCodeMin: tag + ": at least {{min}}", zconst.IssueCodeFallback: tag + ": invalid"}}
+	}
+	i18n.SetLanguagesErrsMap(map[string]zconst.LangMap{"zh": mkLang("zh"), "zh-Hant": mkLang("zh-Hant"), "sr": mkLang("sr"), "sr_Latn": mkLang("sr_Latn"), "en": mkLang("en")}, "en")
+	for _, lang := range []string{"zh-Hant-TW", "sr_Latn_RS", "zh-Hans", "zh", "fr"} {
+		seen := map[string]int{}
+		for i := 0; i < 30; i++ {
+			var s string
+			l := z.String().Min(5).Parse("ab", &s, z.WithCtxValue("lang", lang))
+			c.Eval(1)
+			if len(l) != 1 {
+				seen[fmt.Sprintf("%d issues", len(l))]++
+				continue
+			}
+			seen[l[0].Message]++
+		}
+		if len(seen) != 1 {
+			c.Violation("result-depends-on-order|message-language", map[string]any{"configured_languages": "zh, zh-Hant, sr, sr_Latn, en (default en)", "lang_of_the_execution": lang, "distinct_messages_over_30_runs": seen})
+			return false
+		}
+	}
+	conf.IssueFormatter = saved
+	type rec struct {
+		A, B []string
+		N    string
+	}
+	st := z.Struct(z.Schema{"a": z.Slice(z.String().Min(3)), "b": z.Slice(z.String().Min(3)), "n": z.String().Min(3)})
+	items := make([]any, 700)
+	for i := range items {
+		items[i] = "x"
+	}
+	seen := map[string]int{}
+	for i := 0; i < 8; i++ {
+		var d rec
+		m := st.Parse(map[string]any{"a": items, "b": items, "n": "y"}, &d)
+		c.Eval(1)
+		na, nb, nn := 0, 0, len(m["n"])
+		for k := range m {
+			if strings.HasPrefix(k, "a[") {
+				na++
+			} else if strings.HasPrefix(k, "b[") {
+				nb++
+			}
+		}
+		seen[fmt.Sprintf("keys under a: %d, under b: %d, issues of n: %d", na, nb, nn)]++
+	}
+	if len(seen) != 1 {
+		c.Violation("result-depends-on-order|many-issues", map[string]any{"schema": "{a: Slice(String().Min(3)), b: Slice(String().Min(3)), n: String().Min(3)}", "input": "a and b: 700 items \"x\" each, n: \"y\"", "distinct_key_sets_over_8_runs": seen})
+		return false
+	}
+	c.Count("wide_rounds", 1)
+	return true
+}
+
 func (c09) RunCase(c *core.Ctx) {
 	if c.Case%100 == 7 && !c09PlaceholderText(c) {
+		return
+	}
+	if c.Case%500 == 9 && !c09Wide(c) {
 		return
 	}
 	if c.Case%5 == 4 && !c09Flat(c) {
